@@ -1,10 +1,10 @@
 CONSTANTS
-  Workers <- Workers_g18
-  NTs <- NTs_g18
-  ThreadNames <- Threads_g18
+  Workers <- MCWorkers
+  NTs <- MCNTs
+  ThreadNames <- MCThreads
   WyFix = FALSE
   AllowSpurious = FALSE
-INIT Init_g18
+INIT MCInit
 NEXT Next
 CHECK_DEADLOCK TRUE
 INVARIANTS TypeOK NoBad FuncOnce ReadyImpliesRan GetsAgree DeallocOnce RefsSane ThenAfterReady TsWaitImpliesReady CountersSane AtEnd WhenAllReady WhenAnyReady CombFOnce
